@@ -66,7 +66,7 @@ Proof.
         unfold py_floordiv. destruct (gap =? 0) eqn:E; [lia|]. reflexivity. }
   cbn [bind app]. rewrite map_map.
   destruct reps as [|r0 rs]; [congruence|]. cbn [map]. unfold py_max. cbn [bind].
-  unfold py_floordiv. cbn [Z.eqb bind]. f_equal. f_equal.
+  f_equal. f_equal.
   rewrite fold_max_nonneg.
   - rewrite ?map_map. reflexivity.
   - rewrite Forall_forall in Hdom. destruct (Hdom r0 (or_introl eq_refl)) as [Hi [Hn _]].
